@@ -156,6 +156,54 @@ def equity_items(run: Run, rng, tier):
     return items
 
 
+ROYAL = [c for c in range(52) if c // 4 >= 8]          # T J Q K A
+
+
+def strength_items(run: Run, rng, tier):
+    """calculate_hand_strength on small decks with the player's cards and the board complete: the only chance left is the
+    opponents' cards, which TLC enumerates (the exact expectation); the code samples them (seeded, so the run is repeatable)
+    and must land within six standard deviations.  Plus partial deals through calculate_equities: whatever was sampled, the
+    values are shares of one pot."""
+    import random as pyrandom
+    from pokerkit import calculate_hand_strength, calculate_equities
+    items = []
+    n_samples = 1500
+    tol = int(6 * 0.5 / n_samples ** 0.5 * 10 ** 6) + 1
+    for j in range(36 if tier == 'quick' else 600):
+        t = rng.choice(['StandardHigh', 'StandardHigh', 'Omaha', 'ShortDeck', 'StandardLow'])
+        k = 4 if t == 'Omaha' else 2
+        n = rng.choice([2, 2, 3])
+        if n == 2:
+            base = ROYAL if t in ('StandardHigh', 'ShortDeck') or rng.random() < 0.5 else rng.sample(range(52), 20)
+            deck = sorted(rng.sample(base, min(len(base), k + 5 + rng.choice([k + 1, 6, 9]))))
+        else:
+            deck = sorted(rng.sample(ROYAL if rng.random() < 0.6 else [c for c in range(52) if t != 'ShortDeck' or c // 4 >= 4], k + 5 + 2 * k + rng.choice([0, 1])))
+        cs = rng.sample(deck, k + 5)
+        hole, board = cs[:k], cs[k:]
+        pyrandom.seed(run.seed * 100003 + j)
+        got = calculate_hand_strength(n, [[int_card(c) for c in hole]], [int_card(c) for c in board], k, 5, [int_card(c) for c in deck],
+                                      (TYPE_CLASSES[t],), sample_count=n_samples)
+        items.append({'kind': 'strength', 'types': [t], 'n': n, 'hole': hole, 'board': board, 'rest': sorted(set(deck) - set(cs)),
+                      'micro': int(round(got * 10 ** 6)), 'tol': tol})
+        run.count('hand_strength_cases')
+        run.count(f'hand_strength_players:{n}')
+        run.nontrivial.add(('strength', t, n, tuple(hole), tuple(board), tuple(deck)))
+    for j in range(60 if tier == 'quick' else 800):
+        types = rng.choice([['StandardHigh'], ['StandardHigh', 'EightOrBetter'], ['Omaha', 'Omaha8'], ['StandardHigh', 'StandardLow'], ['ShortDeck']])
+        k = 4 if types[0] == 'Omaha' else 2
+        n = rng.randint(2, 4)
+        deck = [c for c in range(52) if c // 4 >= 4] if types[0] == 'ShortDeck' else list(range(52))
+        cs = rng.sample(deck, n * k + 5)
+        holes = [cs[i * k:i * k + rng.randint(0, k)] for i in range(n)]
+        board = cs[n * k:n * k + rng.choice([0, 3, 4, 5])]
+        pyrandom.seed(run.seed * 100019 + j)
+        got = calculate_equities([[[int_card(c) for c in h]] for h in holes], [int_card(c) for c in board], k, 5, [int_card(c) for c in deck],
+                                 tuple(TYPE_CLASSES[t] for t in types), sample_count=rng.choice([1, 7, 40]))
+        items.append({'kind': 'equityany', 'types': types, 'holes': holes, 'board': board, 'micro': [int(round(x * 10 ** 6)) for x in got]})
+        run.count('equity_partial_deals')
+    return items
+
+
 def icm_items(run: Run, rng, tier):
     from pokerkit import calculate_icm
     items = []
@@ -202,6 +250,9 @@ def check_C18(run: Run):
     items = equity_items(run, rng, run.tier)
     run.sample(items[0])
     run_items(run, items, 'C18_equities', sig=sig)
+    items = strength_items(run, rng, run.tier)
+    run.sample(items[0])
+    run_items(run, items, 'C18_strength', sig=sig)
     items = icm_items(run, rng, run.tier)
     run.sample(items[0])
     run_items(run, items, 'C18_icm', sig=sig)
@@ -209,5 +260,7 @@ def check_C18(run: Run):
                 'quick), invalid dash forms, explicit cards, and lists in 9 separator styles; equities: fully specified deals of 10 '
                 'hand-type tuples incl. split pots with and without a qualifying low, calculate_equities with two sample counts '
                 'and the engine\'s own all-in showdown of the same cards, against Analysis!Shares as exact rationals; ICM: small chip '
-                'vectors x payout vectors against the exact model; Monte-Carlo accuracy for partial deals is not decided')
-    run.need('range_form:dash', 'range_lists', 'equity_split_pot_deals', 'icm_vectors')
+                'vectors x payout vectors against the exact model; calculate_hand_strength with the hero and board complete on 12-20 card decks against the exact expectation over all opponent '
+                'hands (TLC enumerates them; six standard deviations of slack); partial deals: values are shares of one pot; '
+                'Monte-Carlo accuracy for other partial deals is not decided')
+    run.need('range_form:dash', 'range_lists', 'equity_split_pot_deals', 'icm_vectors', 'hand_strength_players:3', 'equity_partial_deals')
